@@ -277,7 +277,7 @@ class SymSim(mosaik_api_v3.Simulator):
                         if CTX.get('none_values') and eng.flag(f'{self.sid}.none{k}.{a}'):
                             data[eid][a] = None      # an event may carry any value, None included
                         any_event = True
-        if only_events and any_event and CTX.get('future_outputs', False):
+        if (only_events or CTX.get('future_mixed')) and any_event and CTX.get('future_outputs', False):
             if eng.flag(f'{self.sid}.fut{k}'):
                 e = eng.int(f'{self.sid}.e{k}', 1)
                 if CTX.get('bounded_times'):
@@ -481,7 +481,7 @@ def run_world(eng, topo, cfg, behaviour=None, hook=None, fault=None, rules=None,
                sync=set(cfg.get('sync', ())), future_outputs=cfg.get('future_outputs', False),
                no_self=set(cfg.get('no_self', ())), behaviour=behaviour, hook=hook, fault=fault,
                quiet_after_K=cfg.get('quiet_after_K', True),
-               bounded_times=bool(cfg.get('cache', True) or cfg.get('debug', False)), gain=dict(cfg.get('gain', {})), linger=set(cfg.get('linger', ())), none_values=cfg.get('none_values', False))
+               bounded_times=bool(cfg.get('cache', True) or cfg.get('debug', False)), gain=dict(cfg.get('gain', {})), linger=set(cfg.get('linger', ())), none_values=cfg.get('none_values', False), future_mixed=cfg.get('future_mixed', False))
     CTX.update(CTX_EXTRA)
     r = Run()
     r.ref, r.loop, r.log, r.until = ref, loop, log, until
